@@ -257,6 +257,35 @@ def run(ctx):
         amsg = c10.oracle(ac)
         if amsg and ("exhausted" in amsg or "raised after" in amsg):
             findings.append(({"loop": "tube-step", "n": ac["n"], "forced": ac["forced"], "failing": ac["failing"]}, ac, amsg))
+    # the coupled solver's parameter sections: "solid" options reach the wall solver (and only it), "fluid" options the flow path
+    from harness.props import c07
+    import random as _random
+    crng = _random.Random(ctx.seed if hasattr(ctx, "seed") else 0)
+    ctimes = [0.0, 0.5, 1.0]
+    cbase = c07.base_case(0, ctimes, [["0", [c07.tube_spec(crng, ctimes, 1, nr=4, nt=3, nz=2, flux_level=3.0)]]],
+                          [["f", {"panels": ["0"], "mass_flow": [60.0] * 3, "inlet": [500.0] * 3}]], steady=False,
+                          pset={"rtol": 1e-10, "atol": 1e-8, "miter": 400})
+    variants = [("reference", {}, {}), ("solid substep=4", {"substep": 4}, {}), ("fluid section substep=4", {}, {"substep": 4})]
+    cc = []
+    for i, (_, sp, fp) in enumerate(variants):
+        d = c07.to_impl(cbase)
+        d.update(id=i, solid_pset=sp, fluid_pset=fp)
+        cc.append(d)
+    cres = run_impl("c07_coupled", {"cases": cc}, timeout=900)["results"]
+    for (nm, _, _), r in zip(variants, cres):
+        ctx.case(("coupled-section", nm), True)
+        ctx.count("coupled-section:" + ("ok" if "tubes" in r else "not solved"))
+    if all("tubes" in r for r in cres):
+        Tref, Tsol, Tflu = [r["tubes"][0]["temperature"] for r in cres]
+        if Tsol == Tref:
+            findings.append(({"loop": "coupled-sections", "case": cc[1]}, {"same_as_reference": True},
+                             "sub-steps requested in the \"solid\" section of the coupled solver have no effect on the wall temperatures"))
+        if Tflu != Tref:
+            findings.append(({"loop": "coupled-sections", "case": cc[2]}, {"same_as_reference": False},
+                             "a wall-solver option placed in the \"fluid\" section of the coupled solver changes the wall temperatures"))
+    else:
+        findings.append(({"loop": "coupled-sections", "case": cc[0]}, {k: v for r in cres for k, v in r.items() if k != "tubes"},
+                         "the coupled solve with documented section options did not complete"))
     ctx.sample({"loop": cases[0]["loop"], "script": [enc(x) for x in cases[0]["script"][:6]], "miter": cases[0].get("miter")})
     if findings:
         findings.sort(key=lambda f: len(str(f[0])))
@@ -284,6 +313,12 @@ def replay(rp):
     c = rp.get("case")
     if not c:
         print("replay file names a broken obligation, not an input: %s" % rp.get("broken"))
+        return 1
+    if c.get("loop") == "coupled-sections":
+        r = run_impl("c07_coupled", {"cases": [dict(c["case"], solid_pset={}, fluid_pset={}), c["case"]]}, timeout=900)["results"]
+        print("recorded:", rp.get("oracle"))
+        print("observed now: wall temperatures %s the run without section options"
+              % ("equal" if r[0].get("tubes") and r[1].get("tubes") and r[0]["tubes"][0]["temperature"] == r[1]["tubes"][0]["temperature"] else "differ from"))
         return 1
     r = run_impl("c17_loops", {"cases": [c]})["results"][0]
     print("recorded:", rp.get("oracle"))
